@@ -1,0 +1,17 @@
+// Copyright (c) The Thanos Community Authors.
+// Licensed under the Apache License 2.0.
+
+//go:build !verif
+
+package execution
+
+import (
+	"github.com/prometheus/prometheus/promql/parser"
+
+	"github.com/thanos-community/promql-engine/execution/model"
+	"github.com/thanos-community/promql-engine/query"
+)
+
+func verifWrap(op model.VectorOperator, err error, _ parser.Expr, _ *query.Options) (model.VectorOperator, error) {
+	return op, err
+}
